@@ -3,6 +3,7 @@ import M3d.Model.Transform
 import M3d.Model.SmartSqueeze
 import M3d.Model.Transform2
 import M3d.Model.TransformNest
+import M3d.Model.TransformHist
 /-!
 Line-protocol handler for C05.  Core-only; runs the models of `M3d/Model/Transform.lean` at `Rat`.
 
@@ -185,31 +186,32 @@ def rcStr (dim : Nat) : RCResult Q → String
   | .ok n calls =>
       if calls.isEmpty then toString n else toString n ++ " " ++ "|".intercalate (calls.map (sHit dim))
 
-def handleXf (dim : Nat) (kind : String) (ws : List String) : Option String := do
+def handleXfP (pT : P (Xf Q)) (pTN : P (List (Xf Q) × Xf Q)) (dim : Nat) (kind : String) (ws : List String) :
+    Option String := do
   match kind with
   | "apply" =>
-      let (t, ws) ← pXf dim ws; let p ← done (← pV dim 0 ws)
+      let (t, ws) ← pT ws; let p ← done (← pV dim 0 ws)
       some (sV dim (t.apply p))
   | "bounds" =>
-      let (t, ws) ← pXf dim ws; let (lo, ws) ← pV dim 0 ws; let hi ← done (← pV dim 0 ws)
+      let (t, ws) ← pT ws; let (lo, ws) ← pV dim 0 ws; let hi ← done (← pV dim 0 ws)
       some (sB dim (t.applyBounds lo hi))
   | "invdesc" =>
-      let t ← done (← pXf dim ws)
+      let t ← done (← pT ws)
       some (sXf dim t.inverse)
   | "roundtrip" =>
-      let (t, ws) ← pXf dim ws; let p ← done (← pV dim 0 ws)
+      let (t, ws) ← pT ws; let p ← done (← pV dim 0 ws)
       let spec := sV dim p ++ " " ++ sV dim p
       let model := sV dim (t.inverse.apply (t.apply p)) ++ " " ++ sV dim (t.apply (t.inverse.apply p))
       some (if model = spec then spec else spec ++ " MODEL-NE-SPEC:" ++ model)
   | "encl" =>
-      let (t, ws) ← pXf dim ws; let (lo, ws) ← pV dim 0 ws; let (hi, ws) ← pV dim 0 ws; let p ← done (← pV dim 0 ws)
+      let (t, ws) ← pT ws; let (lo, ws) ← pV dim 0 ws; let (hi, ws) ← pV dim 0 ws; let p ← done (← pV dim 0 ws)
       let b := t.applyBounds lo hi
       some (if inBounds (t.apply p) b.1 b.2 then "1" else "1 MODEL-NE-SPEC:0")
   | "appdist" =>
-      let (t, ws) ← pXf dim ws; let d ← done (← pRat ws)
+      let (t, ws) ← pT ws; let d ← done (← pRat ws)
       some (showRat (t.applyDistance d))
   | "dist" =>
-      let (t, ws) ← pXf dim ws; let (p, ws) ← pV dim 0 ws; let q ← done (← pV dim 0 ws)
+      let (t, ws) ← pT ws; let (p, ws) ← pV dim 0 ws; let q ← done (← pV dim 0 ws)
       match ratSqrt ((t.apply p).sub (t.apply q)).normSq, ratSqrt (p.sub q).normSq with
       | some r, some d =>
           let spec := showRat r ++ " " ++ showRat r
@@ -217,7 +219,7 @@ def handleXf (dim : Nat) (kind : String) (ws : List String) : Option String := d
           some (if model = showRat r then spec else spec ++ " MODEL-NE-SPEC:" ++ model)
       | _, _ => some "irrational"
   | "solid" =>
-      let ((l, t), ws) ← pXfN dim ws; let (lo, ws) ← pV dim 0 ws; let (hi, ws) ← pV dim 0 ws
+      let ((l, t), ws) ← pTN ws; let (lo, ws) ← pV dim 0 ws; let (hi, ws) ← pV dim 0 ws
       let (q, ws) ← pV dim 0 ws; let c ← done (← pNat ws)
       let stub : Solid Q := { lo := lo, hi := hi, contains := fun x => if x = q then c == 1 else !(c == 1) }
       let ts := nestSolid l stub
@@ -225,12 +227,12 @@ def handleXf (dim : Nat) (kind : String) (ws : List String) : Option String := d
       let model := boolStr (ts.contains (t.apply q))
       some ((if model = spec then spec else spec ++ " MODEL-NE-SPEC:" ++ model) ++ " " ++ sB dim (ts.lo, ts.hi))
   | "solidr" =>
-      let ((l, _), ws) ← pXfN dim ws; let (lo, ws) ← pV dim 0 ws; let (hi, ws) ← pV dim 0 ws
+      let ((l, _), ws) ← pTN ws; let (lo, ws) ← pV dim 0 ws; let (hi, ws) ← pV dim 0 ws
       let p ← done (← pV dim 0 ws)
       let rect : Solid Q := { lo := lo, hi := hi, contains := fun x => inBounds x lo hi }
       some (boolStr ((nestSolid l rect).contains p))
   | "sdf" =>
-      let ((l, t), ws) ← pXfN dim ws; let (lo, ws) ← pV dim 0 ws; let (hi, ws) ← pV dim 0 ws
+      let ((l, t), ws) ← pTN ws; let (lo, ws) ← pV dim 0 ws; let (hi, ws) ← pV dim 0 ws
       let (q, ws) ← pV dim 0 ws; let v ← done (← pRat ws)
       let stub : SDF Q := { lo := lo, hi := hi, sdf := fun x => if x = q then v else v + 1000 }
       let ts := nestSDF l stub
@@ -238,7 +240,7 @@ def handleXf (dim : Nat) (kind : String) (ws : List String) : Option String := d
       let model := showRat (ts.sdf (t.apply q))
       some ((if model = spec then spec else spec ++ " MODEL-NE-SPEC:" ++ model) ++ " " ++ sB dim (ts.lo, ts.hi))
   | "mball" =>
-      let ((l, t), ws) ← pXfN dim ws; let (lo, ws) ← pV dim 0 ws; let (hi, ws) ← pV dim 0 ws
+      let ((l, t), ws) ← pTN ws; let (lo, ws) ← pV dim 0 ws; let (hi, ws) ← pV dim 0 ws
       let (q, ws) ← pV dim 0 ws; let (mv, ws) ← pRat ws; let (d, ws) ← pRat ws; let bd ← done (← pRat ws)
       let stub : Metaball Q := { lo := lo, hi := hi, field := fun x => if x = q then mv else mv + 1000,
                                  distBound := fun x => if x = d then bd else bd + 1000 }
@@ -257,29 +259,29 @@ def handleXf (dim : Nat) (kind : String) (ws : List String) : Option String := d
       let vm := vecScaleMetaball stub sc
       some (showRat (vm.field (q.mul sc)) ++ " " ++ showRat (vm.distBound d) ++ " " ++ sB dim (vm.lo, vm.hi))
   | "inner" =>
-      let ((l, _), ws) ← pXfN dim ws; let (o, ws) ← pV dim 0 ws; let d ← done (← pV dim 0 ws)
+      let ((l, _), ws) ← pTN ws; let (o, ws) ← pV dim 0 ws; let d ← done (← pV dim 0 ws)
       let r := l.foldr (fun t r => innerRay t.inverse r) ⟨o, d⟩
       some (sV dim r.origin ++ " " ++ sV dim r.dir)
   | "outer" =>
-      let ((l, _), ws) ← pXfN dim ws; let (hs, ws) ← pHits dim 1 ws; let _ ← done ((), ws)
+      let ((l, _), ws) ← pTN ws; let (hs, ws) ← pHits dim 1 ws; let _ ← done ((), ws)
       let r : Ray Q := ⟨V3.zero, ⟨1, 0, 0⟩⟩
       match colliderRayCollisions (nestCollider sqrtQ l (dummyCollider hs)) r true with
       | .ok _ calls => some ("|".intercalate (calls.map (sHit dim)))
       | .panic => some "panic"
   | "nilcb" =>
-      let ((l, _), ws) ← pXfN dim ws; let k ← done (← pNat ws)
+      let ((l, _), ws) ← pTN ws; let k ← done (← pNat ws)
       let hs := List.replicate k (⟨1, ⟨1, 0, 0⟩, 0⟩ : Hit Q)
       some (rcStr dim (colliderRayCollisions (nestCollider sqrtQ l (dummyCollider hs)) ⟨V3.zero, ⟨1, 0, 0⟩⟩ false))
   | "sphin" =>
-      let ((l, _), ws) ← pXfN dim ws; let (c, ws) ← pV dim 0 ws; let (r, ws) ← pRat ws; let reply ← done (← pNat ws)
+      let ((l, _), ws) ← pTN ws; let (c, ws) ← pV dim 0 ws; let (r, ws) ← pRat ws; let reply ← done (← pNat ws)
       let q := l.foldr (fun t (q : _ × Q) => (t.inverse.apply q.1, t.inverse.applyDistance q.2)) (c, r)
       some (sV dim q.1 ++ " " ++ showRat q.2 ++ " " ++ toString reply)
   | "cbounds" =>
-      let ((l, _), ws) ← pXfN dim ws; let (lo, ws) ← pV dim 0 ws; let hi ← done (← pV dim 0 ws)
+      let ((l, _), ws) ← pTN ws; let (lo, ws) ← pV dim 0 ws; let hi ← done (← pV dim 0 ws)
       some (sB dim (l.foldl (fun b t => t.applyBounds b.1 b.2) (lo, hi)))
   | "coll" =>
       let mode ← ws.head?
-      let ((l, t), ws) ← pXfN dim (ws.drop 1)
+      let ((l, t), ws) ← pTN (ws.drop 1)
       let (o, ws) ← pV dim 0 ws; let (d, ws) ← pV dim 0 ws
       let (o', ws) ← pV dim 0 ws; let (d', ws) ← pV dim 0 ws
       let (cnt, ws) ← pNat ws; let (n, ws) ← pNat ws
@@ -291,7 +293,7 @@ def handleXf (dim : Nat) (kind : String) (ws : List String) : Option String := d
       let s := rcStr dim spec
       some (if rcStr dim model = s then s else s ++ " MODEL-NE-SPEC:" ++ rcStr dim model)
   | "first" =>
-      let ((l, t), ws) ← pXfN dim ws
+      let ((l, t), ws) ← pTN ws
       let (o, ws) ← pV dim 0 ws; let (d, ws) ← pV dim 0 ws
       let (o', ws) ← pV dim 0 ws; let (d', ws) ← pV dim 0 ws
       let (ok, ws) ← pNat ws
@@ -303,14 +305,107 @@ def handleXf (dim : Nat) (kind : String) (ws : List String) : Option String := d
       let model := render ((nestCollider sqrtQ l stub).first ⟨o, d⟩)
       some (if model = s then s else s ++ " MODEL-NE-SPEC:" ++ model)
   | "sphc" =>
-      let ((l, _), ws) ← pXfN dim ws
+      let ((l, _), ws) ← pTN ws
       let (c, ws) ← pV dim 0 ws; let (r, ws) ← pRat ws
       let (q, ws) ← pV dim 0 ws; let (rad, ws) ← pRat ws; let want ← done (← pNat ws)
       let stub := tableCollider ⟨V3.zero, V3.zero⟩ 0 [] (⟨0, V3.zero, 0⟩, false) q rad (want == 1)
       let s := boolStr (want == 1)
       let model := boolStr ((nestCollider sqrtQ l stub).sphere c r)
       some (if model = s then s else s ++ " MODEL-NE-SPEC:" ++ model)
+  | "meshxf" =>
+      -- `Mesh.Transform(t.Inverse())` on a one-triangle mesh = `conjBack` per vertex
+      let (t, ws) ← pT ws
+      let (a, ws) ← pV dim 0 ws; let (b, ws) ← pV dim 0 ws; let c ← done (← pV dim 0 ws)
+      some (sV dim (conjBack t a) ++ " " ++ sV dim (conjBack t b) ++ " " ++ sV dim (conjBack t c))
   | _ => none
+
+/-- the kinds on a transform given by its tokens -/
+def handleXf (dim : Nat) (kind : String) (ws : List String) : Option String :=
+  handleXfP (pXf dim) (pXfN dim) dim kind ws
+
+/-! ### histories of one transform object (`c05 hist3 <xf> <n> step…`)
+
+The driver runs the *value semantics* of `M3d/Model/TransformHist.lean` (`HStep.run`): every object has a current value,
+`inv i` appends `Inverse()` of the **current** value of object `i`, `mut i path μ` is an in-place edit of object `i`
+(of nothing else), `snap i` remembers the value wrappers are built from, and `o <kind> <k> tok…` is any of the kinds
+above evaluated on `@i` (object `i` as it is now) or `%w` (the value wrapper `w` was built from).
+`M3d.C05.inverse_fresh`, `history_value_semantics`, `inverse_after_history` prove that the heap semantics of the Go
+code (pointers, in-place mutation, allocation in `Inverse()`) is this value semantics. -/
+
+/-- `@i`: object `i` as it is now; `%w`: the value wrapper `w` was built from; otherwise a literal transform. -/
+def pRef (dim : Nat) (st : HState Q) : P (Xf Q)
+  | w :: ws =>
+      if w.startsWith "@" then do
+        let i ← (w.drop 1).toString.toNat?
+        let t ← st.objs[i]?
+        some (t, ws)
+      else if w.startsWith "%" then do
+        let i ← (w.drop 1).toString.toNat?
+        let t ← st.snaps[i]?
+        some (t, ws)
+      else pXf dim (w :: ws)
+  | [] => none
+
+def pRefN (dim : Nat) (st : HState Q) : P (List (Xf Q) × Xf Q) := fun ws => do
+  let (t, ws) ← pRef dim st ws
+  some (([t], t), ws)
+
+def pNatList : Nat → P (List Nat)
+  | 0, ws => some ([], ws)
+  | n + 1, ws => do
+      let (a, ws) ← pNat ws
+      let (rest, ws) ← pNatList n ws
+      some (a :: rest, ws)
+
+def pMut (dim : Nat) : P (Mut Q)
+  | "off" :: ws => do let (v, ws) ← pV dim 0 ws; some (.setOffset v, ws)
+  | "sc" :: ws => do let (s, ws) ← pRat ws; some (.setScale s, ws)
+  | "vec" :: ws => do let (v, ws) ← pV dim 1 ws; some (.setVec v, ws)
+  | "sq" :: ws => do
+      let (ax, ws) ← pNat ws
+      let (lo, ws) ← pRat ws; let (hi, ws) ← pRat ws; let (r, ws) ← pRat ws
+      some (.setSqueeze ax lo hi r, ws)
+  | "mscale" :: ws => do let (s, ws) ← pRat ws; some (.matScale s, ws)
+  | "massign" :: ws => do let (m, ws) ← pM dim ws; some (.matAssign m, ws)
+  | "minvert" :: ws => some (.matInvert, ws)
+  | "mptr" :: ws => do let (m, ws) ← pM dim ws; some (.matPtr m, ws)
+  | "jset" :: ws => do let (k, ws) ← pNat ws; let (x, ws) ← pXf dim ws; some (.jset k x, ws)
+  | "japp" :: ws => do let (x, ws) ← pXf dim ws; some (.japp x, ws)
+  | "jswap" :: ws => do let (a, ws) ← pNat ws; let (b, ws) ← pNat ws; some (.jswap a b, ws)
+  | _ => none
+
+/-- the steps of a history, one output segment per step -/
+def histSteps (dim : Nat) : Nat → HState Q → List String → List String → Option String
+  | 0, _, ws, acc => if ws.isEmpty then some (" ; ".intercalate acc.reverse) else none
+  | n + 1, st, ws, acc =>
+      match ws with
+      | "inv" :: ws => do
+          let (i, ws) ← pNat ws
+          let st' ← (HStep.inv i).run st
+          let t ← st'.objs.getLast?
+          histSteps dim n st' ws (sXf dim t :: acc)
+      | "snap" :: ws => do
+          let (i, ws) ← pNat ws
+          let st' ← (HStep.snap i).run st
+          histSteps dim n st' ws ("-" :: acc)
+      | "mut" :: ws => do
+          let (i, ws) ← pNat ws; let (k, ws) ← pNat ws; let (path, ws) ← pNatList k ws
+          let (μ, ws) ← pMut dim ws
+          let st' ← (HStep.mut i path μ).run st
+          let t ← st'.objs[i]?
+          histSteps dim n st' ws (sXf dim t :: acc)
+      | "o" :: kind :: ws => do
+          let (k, ws) ← pNat ws
+          if ws.length < k then none
+          let out ← handleXfP (pRef dim st) (pRefN dim st) dim kind (ws.take k)
+          histSteps dim n st (ws.drop k) (out :: acc)
+      | _ => none
+
+/-- `hist3 <xf> <n> step…` -/
+def handleHist (dim : Nat) (ws : List String) : Option String := do
+  let (t, ws) ← pXf dim ws
+  let (n, ws) ← pNat ws
+  histSteps dim n { objs := [t], snaps := [] } ws []
 
 
 /-! ### the 2-D kinds: the same handlers over the native 2-D model (`M3d/Model/Transform2.lean`) -/
@@ -434,31 +529,32 @@ def rcStr (dim : Nat) : RCResult2 Q → String
   | .ok n calls =>
       if calls.isEmpty then toString n else toString n ++ " " ++ "|".intercalate (calls.map (sHit dim))
 
-def handleXf (dim : Nat) (kind : String) (ws : List String) : Option String := do
+def handleXfP (pT : P (Xf2 Q)) (pTN : P (List (Xf2 Q) × Xf2 Q)) (dim : Nat) (kind : String) (ws : List String) :
+    Option String := do
   match kind with
   | "apply" =>
-      let (t, ws) ← pXf dim ws; let p ← done (← pV dim 0 ws)
+      let (t, ws) ← pT ws; let p ← done (← pV dim 0 ws)
       some (sV dim (t.apply p))
   | "bounds" =>
-      let (t, ws) ← pXf dim ws; let (lo, ws) ← pV dim 0 ws; let hi ← done (← pV dim 0 ws)
+      let (t, ws) ← pT ws; let (lo, ws) ← pV dim 0 ws; let hi ← done (← pV dim 0 ws)
       some (sB dim (t.applyBounds lo hi))
   | "invdesc" =>
-      let t ← done (← pXf dim ws)
+      let t ← done (← pT ws)
       some (sXf dim t.inverse)
   | "roundtrip" =>
-      let (t, ws) ← pXf dim ws; let p ← done (← pV dim 0 ws)
+      let (t, ws) ← pT ws; let p ← done (← pV dim 0 ws)
       let spec := sV dim p ++ " " ++ sV dim p
       let model := sV dim (t.inverse.apply (t.apply p)) ++ " " ++ sV dim (t.apply (t.inverse.apply p))
       some (if model = spec then spec else spec ++ " MODEL-NE-SPEC:" ++ model)
   | "encl" =>
-      let (t, ws) ← pXf dim ws; let (lo, ws) ← pV dim 0 ws; let (hi, ws) ← pV dim 0 ws; let p ← done (← pV dim 0 ws)
+      let (t, ws) ← pT ws; let (lo, ws) ← pV dim 0 ws; let (hi, ws) ← pV dim 0 ws; let p ← done (← pV dim 0 ws)
       let b := t.applyBounds lo hi
       some (if inBounds2 (t.apply p) b.1 b.2 then "1" else "1 MODEL-NE-SPEC:0")
   | "appdist" =>
-      let (t, ws) ← pXf dim ws; let d ← done (← pRat ws)
+      let (t, ws) ← pT ws; let d ← done (← pRat ws)
       some (showRat (t.applyDistance d))
   | "dist" =>
-      let (t, ws) ← pXf dim ws; let (p, ws) ← pV dim 0 ws; let q ← done (← pV dim 0 ws)
+      let (t, ws) ← pT ws; let (p, ws) ← pV dim 0 ws; let q ← done (← pV dim 0 ws)
       match ratSqrt ((t.apply p).sub (t.apply q)).normSq, ratSqrt (p.sub q).normSq with
       | some r, some d =>
           let spec := showRat r ++ " " ++ showRat r
@@ -466,7 +562,7 @@ def handleXf (dim : Nat) (kind : String) (ws : List String) : Option String := d
           some (if model = showRat r then spec else spec ++ " MODEL-NE-SPEC:" ++ model)
       | _, _ => some "irrational"
   | "solid" =>
-      let ((l, t), ws) ← pXfN dim ws; let (lo, ws) ← pV dim 0 ws; let (hi, ws) ← pV dim 0 ws
+      let ((l, t), ws) ← pTN ws; let (lo, ws) ← pV dim 0 ws; let (hi, ws) ← pV dim 0 ws
       let (q, ws) ← pV dim 0 ws; let c ← done (← pNat ws)
       let stub : Solid2 Q := { lo := lo, hi := hi, contains := fun x => if x = q then c == 1 else !(c == 1) }
       let ts := nestSolid2 l stub
@@ -474,12 +570,12 @@ def handleXf (dim : Nat) (kind : String) (ws : List String) : Option String := d
       let model := boolStr (ts.contains (t.apply q))
       some ((if model = spec then spec else spec ++ " MODEL-NE-SPEC:" ++ model) ++ " " ++ sB dim (ts.lo, ts.hi))
   | "solidr" =>
-      let ((l, _), ws) ← pXfN dim ws; let (lo, ws) ← pV dim 0 ws; let (hi, ws) ← pV dim 0 ws
+      let ((l, _), ws) ← pTN ws; let (lo, ws) ← pV dim 0 ws; let (hi, ws) ← pV dim 0 ws
       let p ← done (← pV dim 0 ws)
       let rect : Solid2 Q := { lo := lo, hi := hi, contains := fun x => inBounds2 x lo hi }
       some (boolStr ((nestSolid2 l rect).contains p))
   | "sdf" =>
-      let ((l, t), ws) ← pXfN dim ws; let (lo, ws) ← pV dim 0 ws; let (hi, ws) ← pV dim 0 ws
+      let ((l, t), ws) ← pTN ws; let (lo, ws) ← pV dim 0 ws; let (hi, ws) ← pV dim 0 ws
       let (q, ws) ← pV dim 0 ws; let v ← done (← pRat ws)
       let stub : SDF2 Q := { lo := lo, hi := hi, sdf := fun x => if x = q then v else v + 1000 }
       let ts := nestSDF2 l stub
@@ -487,7 +583,7 @@ def handleXf (dim : Nat) (kind : String) (ws : List String) : Option String := d
       let model := showRat (ts.sdf (t.apply q))
       some ((if model = spec then spec else spec ++ " MODEL-NE-SPEC:" ++ model) ++ " " ++ sB dim (ts.lo, ts.hi))
   | "mball" =>
-      let ((l, t), ws) ← pXfN dim ws; let (lo, ws) ← pV dim 0 ws; let (hi, ws) ← pV dim 0 ws
+      let ((l, t), ws) ← pTN ws; let (lo, ws) ← pV dim 0 ws; let (hi, ws) ← pV dim 0 ws
       let (q, ws) ← pV dim 0 ws; let (mv, ws) ← pRat ws; let (d, ws) ← pRat ws; let bd ← done (← pRat ws)
       let stub : Metaball2 Q := { lo := lo, hi := hi, field := fun x => if x = q then mv else mv + 1000,
                                   distBound := fun x => if x = d then bd else bd + 1000 }
@@ -504,29 +600,29 @@ def handleXf (dim : Nat) (kind : String) (ws : List String) : Option String := d
       let vm := vecScaleMetaball2 stub sc
       some (showRat (vm.field (q.mul sc)) ++ " " ++ showRat (vm.distBound d) ++ " " ++ sB dim (vm.lo, vm.hi))
   | "inner" =>
-      let ((l, _), ws) ← pXfN dim ws; let (o, ws) ← pV dim 0 ws; let d ← done (← pV dim 0 ws)
+      let ((l, _), ws) ← pTN ws; let (o, ws) ← pV dim 0 ws; let d ← done (← pV dim 0 ws)
       let r := l.foldr (fun t r => innerRay2 t.inverse r) ⟨o, d⟩
       some (sV dim r.origin ++ " " ++ sV dim r.dir)
   | "outer" =>
-      let ((l, _), ws) ← pXfN dim ws; let (hs, ws) ← pHits dim 1 ws; let _ ← done ((), ws)
+      let ((l, _), ws) ← pTN ws; let (hs, ws) ← pHits dim 1 ws; let _ ← done ((), ws)
       let r : Ray2 Q := ⟨V2.zero, ⟨1, 0⟩⟩
       match colliderRayCollisions2 (nestCollider2 sqrtQ l (dummyCollider hs)) r true with
       | .ok _ calls => some ("|".intercalate (calls.map (sHit dim)))
       | .panic => some "panic"
   | "nilcb" =>
-      let ((l, _), ws) ← pXfN dim ws; let k ← done (← pNat ws)
+      let ((l, _), ws) ← pTN ws; let k ← done (← pNat ws)
       let hs := List.replicate k (⟨1, ⟨1, 0⟩, 0⟩ : Hit2 Q)
       some (rcStr dim (colliderRayCollisions2 (nestCollider2 sqrtQ l (dummyCollider hs)) ⟨V2.zero, ⟨1, 0⟩⟩ false))
   | "sphin" =>
-      let ((l, _), ws) ← pXfN dim ws; let (c, ws) ← pV dim 0 ws; let (r, ws) ← pRat ws; let reply ← done (← pNat ws)
+      let ((l, _), ws) ← pTN ws; let (c, ws) ← pV dim 0 ws; let (r, ws) ← pRat ws; let reply ← done (← pNat ws)
       let q := l.foldr (fun t (q : _ × Q) => (t.inverse.apply q.1, t.inverse.applyDistance q.2)) (c, r)
       some (sV dim q.1 ++ " " ++ showRat q.2 ++ " " ++ toString reply)
   | "cbounds" =>
-      let ((l, _), ws) ← pXfN dim ws; let (lo, ws) ← pV dim 0 ws; let hi ← done (← pV dim 0 ws)
+      let ((l, _), ws) ← pTN ws; let (lo, ws) ← pV dim 0 ws; let hi ← done (← pV dim 0 ws)
       some (sB dim (l.foldl (fun b t => t.applyBounds b.1 b.2) (lo, hi)))
   | "coll" =>
       let mode ← ws.head?
-      let ((l, t), ws) ← pXfN dim (ws.drop 1)
+      let ((l, t), ws) ← pTN (ws.drop 1)
       let (o, ws) ← pV dim 0 ws; let (d, ws) ← pV dim 0 ws
       let (o', ws) ← pV dim 0 ws; let (d', ws) ← pV dim 0 ws
       let (cnt, ws) ← pNat ws; let (n, ws) ← pNat ws
@@ -538,7 +634,7 @@ def handleXf (dim : Nat) (kind : String) (ws : List String) : Option String := d
       let s := rcStr dim spec
       some (if rcStr dim model = s then s else s ++ " MODEL-NE-SPEC:" ++ rcStr dim model)
   | "first" =>
-      let ((l, t), ws) ← pXfN dim ws
+      let ((l, t), ws) ← pTN ws
       let (o, ws) ← pV dim 0 ws; let (d, ws) ← pV dim 0 ws
       let (o', ws) ← pV dim 0 ws; let (d', ws) ← pV dim 0 ws
       let (ok, ws) ← pNat ws
@@ -550,7 +646,7 @@ def handleXf (dim : Nat) (kind : String) (ws : List String) : Option String := d
       let model := render ((nestCollider2 sqrtQ l stub).first ⟨o, d⟩)
       some (if model = s then s else s ++ " MODEL-NE-SPEC:" ++ model)
   | "sphc" =>
-      let ((l, _), ws) ← pXfN dim ws
+      let ((l, _), ws) ← pTN ws
       let (c, ws) ← pV dim 0 ws; let (r, ws) ← pRat ws
       let (q, ws) ← pV dim 0 ws; let (rad, ws) ← pRat ws; let want ← done (← pNat ws)
       let stub := tableCollider ⟨V2.zero, V2.zero⟩ 0 [] (⟨0, V2.zero, 0⟩, false) q rad (want == 1)
@@ -558,6 +654,90 @@ def handleXf (dim : Nat) (kind : String) (ws : List String) : Option String := d
       let model := boolStr ((nestCollider2 sqrtQ l stub).circle c r)
       some (if model = s then s else s ++ " MODEL-NE-SPEC:" ++ model)
   | _ => none
+
+/-- the kinds on a transform given by its tokens -/
+def handleXf (dim : Nat) (kind : String) (ws : List String) : Option String :=
+  handleXfP (pXf dim) (pXfN dim) dim kind ws
+
+/-! ### histories of one transform object (`c05 hist2 <xf> <n> step…`)
+
+The driver runs the *value semantics* of `M3d/Model/TransformHist.lean` (`HStep2.run`): every object has a current value,
+`inv i` appends `Inverse()` of the **current** value of object `i`, `mut i path μ` is an in-place edit of object `i`
+(of nothing else), `snap i` remembers the value wrappers are built from, and `o <kind> <k> tok…` is any of the kinds
+above evaluated on `@i` (object `i` as it is now) or `%w` (the value wrapper `w` was built from).
+`M3d.C05.inverse_fresh`, `history_value_semantics`, `inverse_after_history` prove that the heap semantics of the Go
+code (pointers, in-place mutation, allocation in `Inverse()`) is this value semantics. -/
+
+/-- `@i`: object `i` as it is now; `%w`: the value wrapper `w` was built from; otherwise a literal transform. -/
+def pRef (dim : Nat) (st : HState2 Q) : P (Xf2 Q)
+  | w :: ws =>
+      if w.startsWith "@" then do
+        let i ← (w.drop 1).toString.toNat?
+        let t ← st.objs[i]?
+        some (t, ws)
+      else if w.startsWith "%" then do
+        let i ← (w.drop 1).toString.toNat?
+        let t ← st.snaps[i]?
+        some (t, ws)
+      else pXf dim (w :: ws)
+  | [] => none
+
+def pRefN (dim : Nat) (st : HState2 Q) : P (List (Xf2 Q) × Xf2 Q) := fun ws => do
+  let (t, ws) ← pRef dim st ws
+  some (([t], t), ws)
+
+def pNatList : Nat → P (List Nat)
+  | 0, ws => some ([], ws)
+  | n + 1, ws => do
+      let (a, ws) ← pNat ws
+      let (rest, ws) ← pNatList n ws
+      some (a :: rest, ws)
+
+def pMut (dim : Nat) : P (Mut2 Q)
+  | "off" :: ws => do let (v, ws) ← pV dim 0 ws; some (.setOffset v, ws)
+  | "sc" :: ws => do let (s, ws) ← pRat ws; some (.setScale s, ws)
+  | "vec" :: ws => do let (v, ws) ← pV dim 1 ws; some (.setVec v, ws)
+  | "mscale" :: ws => do let (s, ws) ← pRat ws; some (.matScale s, ws)
+  | "massign" :: ws => do let (m, ws) ← pM dim ws; some (.matAssign m, ws)
+  | "minvert" :: ws => some (.matInvert, ws)
+  | "mptr" :: ws => do let (m, ws) ← pM dim ws; some (.matPtr m, ws)
+  | "jset" :: ws => do let (k, ws) ← pNat ws; let (x, ws) ← pXf dim ws; some (.jset k x, ws)
+  | "japp" :: ws => do let (x, ws) ← pXf dim ws; some (.japp x, ws)
+  | "jswap" :: ws => do let (a, ws) ← pNat ws; let (b, ws) ← pNat ws; some (.jswap a b, ws)
+  | _ => none
+
+/-- the steps of a history, one output segment per step -/
+def histSteps (dim : Nat) : Nat → HState2 Q → List String → List String → Option String
+  | 0, _, ws, acc => if ws.isEmpty then some (" ; ".intercalate acc.reverse) else none
+  | n + 1, st, ws, acc =>
+      match ws with
+      | "inv" :: ws => do
+          let (i, ws) ← pNat ws
+          let st' ← (HStep2.inv i).run st
+          let t ← st'.objs.getLast?
+          histSteps dim n st' ws (sXf dim t :: acc)
+      | "snap" :: ws => do
+          let (i, ws) ← pNat ws
+          let st' ← (HStep2.snap i).run st
+          histSteps dim n st' ws ("-" :: acc)
+      | "mut" :: ws => do
+          let (i, ws) ← pNat ws; let (k, ws) ← pNat ws; let (path, ws) ← pNatList k ws
+          let (μ, ws) ← pMut dim ws
+          let st' ← (HStep2.mut i path μ).run st
+          let t ← st'.objs[i]?
+          histSteps dim n st' ws (sXf dim t :: acc)
+      | "o" :: kind :: ws => do
+          let (k, ws) ← pNat ws
+          if ws.length < k then none
+          let out ← handleXfP (pRef dim st) (pRefN dim st) dim kind (ws.take k)
+          histSteps dim n st (ws.drop k) (out :: acc)
+      | _ => none
+
+/-- `hist2 <xf> <n> step…` -/
+def handleHist (dim : Nat) (ws : List String) : Option String := do
+  let (t, ws) ← pXf dim ws
+  let (n, ws) ← pNat ws
+  histSteps dim n { objs := [t], snaps := [] } ws []
 
 
 end Two
@@ -874,6 +1054,8 @@ def handleAll (ws : List String) : Option String :=
   | "pinch" :: rest => handlePinch rest
   | "smart" :: rest => handleSmart rest
   | "meshxf3" :: rest => handleMeshXf rest
+  | "hist3" :: rest => handleHist 3 rest
+  | "hist2" :: rest => Two.handleHist 2 rest
   | k :: rest => do
       if k.startsWith "bits." then
         let b := (k.drop 5).toString
